@@ -129,6 +129,12 @@ EXPLANATION = (
     "(numpy's split points; ValueError unless n > 0), np.array([''] * s.size, dtype=object) (blank labels), plate_names[idx] = "
     "f'generated_plate_{k}' (index-array store of the plate number k, IndexError outside -n..n-1).  A request whose arguments numpy rejects (k < 0, k > len(pool) without replacement) raises in "
     "Python where the model continues with an answer; no answer satisfies the contract valid_answer for such a request.")
+# ---- source-translation links of the command-line wrappers (Model/Cli.v, Generated/SrcCli.v) ----
+THEOREMS.update({
+    'C18_model_is_source_cli_get_prng_from_seed_argument': 'the translation of the whole function argument_parsing.get_prng_from_seed_argument regenerated on this run equals Cli.prng_of_seed: default_rng(SeedSequence(args.seed).generate_state(1)[0]), a function of args.seed alone (ValueError for a negative seed); it reads no other attribute of args',
+    'C18_model_is_source_cli_calculate_scores': 'the translation of the whole function calculate_scores.main regenerated on this run equals, for every record L of library functions and all parsed arguments, Cli.cli_calculate_scores: score_chunk is handed the loaded screen, the concatenated thetas / distance-matrix files (argument order), rng = Some (the generator derived from --seed), --n-chunks, --chunk-index, the --batch-plate-ids list, and its result is saved to --output (the repaired defect 9b38441 was the missing rng=)',
+})
+EXPLANATION += ("Source-translation links of the CLI wrapper (round 2b): calculate_scores.main and get_prng_from_seed_argument are re-translated as WHOLE functions on every run (Generated/SrcCli.v) and proved equal to Model/Cli.v.  They trust the translator harness/py2gal.py (for these links extended by cfg typed_effects, kwcalls keys `module.function`, state_calls assigned to a tuple), the representation of Model/Cli.v (parsed arguments = a record of the plain argparse results, get_args() not translated = the primitive `get_args()` yielding that record; a main() denotes the list of (path, content) files it writes; `L` = ANY record of library functions over abstract types) and EXACTLY these primitives of harness/src_functions.py, each one field read / one library or constructor call standing for the function of that name (whose own link, where it exists, is the one of its property): CLI_PRNG (get_prng_from_seed_argument, reads args.seed only): numpy.random.SeedSequence(s).generate_state(1)[0] = seedseq_word mix s (ValueError for s < 0, `mix` an arbitrary function of the seed), numpy.random.default_rng(w) = Gen w. CLI_CALCULATE_SCORES: the fields of `args` read as the record's projections (a store to one is refused); ignored: log_config.configure_logging(args), logger.info/warning; Screen.load_h5(p), args.scorer_cls(**args.scorer_params), ThetaHolder(n_thetas=1) (a handle), h.load_h5(p), h.concat(l), ChunkedDistanceMatrix.load(p) / .concat(l), sum(l), s.plates, p.is_observed, p.plate_id (the three only feed a log line), get_prng_from_seed_argument(args) = the TRANSLATED function on the record's seed, the keyword call score_chunk(...) with the defaults of its signature (rng=None, progress_bar=False, n_chunks=1, chunk_index=0, batch_plate_ids=None; WHICH keywords are passed is read from the source), typed effect r.save_h5(p) = append (p, r) to the written files. ")
 TRUSTED = [
     "unittest.mock patching of numpy.random attributes and the stack walk that attributes trapped calls to files under /repo/src/batchie",
     "RecordingGenerator (python subclass of numpy.random.Generator sharing the seeded bit generator) does not change the stream",
